@@ -250,8 +250,12 @@ impl<'a> G<'a> {
         self.feats.push("for");
         let mut cx2 = cx.clone();
         cx2.in_loop = true;
-        let head = match self.rng.below(8) {
+        let head = match self.rng.below(11) {
           0 => ";;".to_string(),
+          // the only thing that may throw is the update (seed C10-5: the update visited before the body's end is known)
+          8 => ";; f()".to_string(),
+          9 => "; true; g()".to_string(),
+          10 => "; !0; x.y".to_string(),
           1 => format!("let i = 0; {}; i++", self.cond()),
           2 => "; true;".to_string(),
           3 => format!("; {};", self.cond_x(&cx)),
